@@ -29,7 +29,17 @@ def make_node_class(eq=False, falsy=False):
 
         def __repr__(self):
             return "N%d" % self.nid
-    if eq:
+    if eq == "raises":
+        # a value-based __eq__ that assumes the other operand's type
+        def _eq(self, other):
+            if other is self:
+                return True
+            raise AttributeError("'%s' object has no attribute 'key'"
+                                 % type(other).__name__)
+        Node.__eq__ = _eq
+        Node.__hash__ = object.__hash__
+    elif eq:
+        Node._all_equal = True
         # all nodes compare equal (value-based __eq__ on HasTraits classes
         # is common); identity is what observation must go by
         Node.__eq__ = lambda self, other: isinstance(other, Node)
@@ -46,11 +56,16 @@ _SHARED = None
 
 _SHARED_EQ = None
 _SHARED_FALSY = None
+_SHARED_RAISES = None
 
 
 def make_pool(fresh_class=False, eq=False):
-    global _SHARED, _SHARED_EQ, _SHARED_FALSY
-    if eq == "falsy":
+    global _SHARED, _SHARED_EQ, _SHARED_FALSY, _SHARED_RAISES
+    if eq == "raises":
+        if _SHARED_RAISES is None:
+            _SHARED_RAISES = make_node_class(eq="raises")
+        cls = _SHARED_RAISES
+    elif eq == "falsy":
         if _SHARED_FALSY is None:
             _SHARED_FALSY = make_node_class(falsy=True)
         cls = _SHARED_FALSY
@@ -168,8 +183,13 @@ def apply(pool, ev):
     k = ev[0]
     o = pool[ev[1]]
     if k == "child":
+        old = o.__dict__.get("child")
         o.child = None if ev[2] is None else pool[ev[2]]
-        return ("trait", o, "child"), False
+        # a notifying link whose old and new objects compare equal changes
+        # what is reachable but is not reported as a change
+        return ("trait", o, "child"), (
+            old is not None and ev[2] is not None
+            and getattr(type(o), "_all_equal", False))
     if k == "lazy":
         o.lazy = None if ev[2] is None else pool[ev[2]]
         return ("trait", o, "lazy"), False
